@@ -105,6 +105,12 @@ def triage_python(run, rep):
 def native_sweep(run, n):
     rng = random.Random(run.seed)
     grid = []
+    # times well above 1 s (still of moderate magnitude: the spacing of doubles at 1e5 s is 1.5e-11 s) with microsecond remainders: a
+    # tolerance that grows with the absolute time drops them
+    for t0 in (5000.0, 86400.25, -5000.0):
+        for mx, whole, rem in ((0.1, 3, 5e-7), (0.05, 0, 3e-6), (0.1, 2, 2e-9), (0.25, 1, -4e-7), (0.1, 0, 1.5e-8)):
+            grid.append((t0, t0 + whole * mx + rem, mx))
+            grid.append((t0, t0 - whole * mx - rem, mx))
     for mx in (0.1, 0.05, 0.03, 1.0, 0.007):
         for t0, t1 in itertools.product((0.0, 1.0, -0.35, 2.5), (0.0, 1.0, 0.77, -0.1, 2.5, 0.23)):
             grid.append((t0, t1, mx))
